@@ -235,9 +235,13 @@ def _real_request(req, cfg, reset):
     dirmod.time = hx.ns(time=lambda: 4102444800.0)
     if reset:
         hx.reset_lazies()
-    w = hx.ListWriter()
-    hx.make_request_handler(hx.BytesReader(req), w, cfg).handle()
-    return _no_dates(w.getvalue())
+    import tempfile
+
+    with tempfile.TemporaryFile() as w:  # a real file: scripts and decompressors write to its descriptor
+        hx.make_request_handler(hx.BytesReader(req), w, cfg).handle()
+        w.flush()
+        w.seek(0)
+        return _no_dates(w.read())
 
 
 def _warm():
